@@ -5,7 +5,16 @@ patch=$(readlink -f "$1"); pid=$2; tier=${3:-quick}
 d=$(mktemp -d /tmp/tpc.XXXXXX); mkdir -p $d/repo
 git -C /repo archive HEAD | tar -x -C $d/repo
 ( cd $d/repo && git init -q . && git apply "$patch" ) || { echo "patch does not apply"; rm -rf $d; exit 2; }
-rsync -a --exclude .git /verif/ $d/verif/
+rsync -a --exclude .git --exclude 'evidence/replays/*' /verif/ $d/verif/
 ( cd $d/verif && VERIF_REPO=$d/repo VERIF_JOBS=${VERIF_JOBS:-4} ./check $pid --tier $tier 2>&1 | grep -v "^NOTE" | tail -${4:-4} ; exit ${PIPESTATUS[0]} ); rc=$?
+python3 - $d/verif/evidence/replays <<'PY'
+import sys, glob, json, os
+seen = []
+for f in sorted(glob.glob(sys.argv[1] + "/*.json"), key=os.path.getmtime):
+    try: k = json.load(open(f)).get("key", "")
+    except Exception: continue
+    if k and k not in seen: seen.append(k)
+for k in seen[:4]: print("KEY: " + k[:300])
+PY
 rm -rf $d
 echo "patch check exit=$rc"
